@@ -50,7 +50,83 @@ structure RS where        -- loop state of FSE_readNCount_body
     let bc' := (bc1.toNat) &&& 31
     (iend - 4, (bc' : Int), (b.le32 (iend - 4)) >>> bc')
 
-/-- FSE_readNCount on a buffer of at least 8 bytes -/
+/-- FSE_readNCount_body, the `if (previous0)` part of one turn of the main loop: runs of zero counts are skipped 2 bits at a time
+(`repeats`), `charnum` moves past them; `charnum >= maxSV1` is the C `break` out of the main loop (here: `done := true`),
+otherwise the bit container is refilled.  The counts of the skipped symbols stay 0 (the array starts zeroed). -/
+def skipZeros (b : Bytes) (iend maxSV1 : Nat) (s : RS) : RS := Id.run do
+  let mut repeats := (ctz (mask32 (0xFFFFFFFF - s.bitStream) ||| 0x80000000)) >>> 1
+  let mut ip := s.ip
+  let mut bitCount := s.bitCount
+  let mut bitStream := s.bitStream
+  let mut charnum := s.charnum
+  -- `while (repeats >= 12)`: bounded by the symbol budget
+  for _ in [0:maxSV1 / 36 + 2] do
+    if repeats < 12 then break
+    charnum := charnum + 36
+    if ip + 7 ≤ iend then
+      ip := ip + 3
+    else
+      bitCount := bitCount - (8 * (((iend - 7 : Nat) : Int) - (ip : Int)))
+      bitCount := ((bitCount.toNat) &&& 31 : Nat)
+      ip := iend - 4
+    bitStream := (b.le32 ip) >>> bitCount.toNat
+    repeats := (ctz (mask32 (0xFFFFFFFF - bitStream) ||| 0x80000000)) >>> 1
+  charnum := charnum + 3 * repeats
+  bitStream := bitStream >>> (2 * repeats)
+  bitCount := bitCount + 2 * repeats
+  charnum := charnum + (bitStream &&& 3)
+  bitCount := bitCount + 2
+  if charnum ≥ maxSV1 then
+    return { s with ip := ip, bitCount := bitCount, bitStream := bitStream, charnum := charnum, done := true }
+  let (ip', bc', bs') := refill b iend ip bitCount
+  return { s with ip := ip', bitCount := bc', bitStream := bs', charnum := charnum }
+
+/-- FSE_readNCount_body, the variable-length field of one count: `max = (2*threshold-1) - remaining`; a value below `max` takes
+`nbBits-1` bits, otherwise `nbBits` bits (values `>= threshold` are shifted down by `max`); then `count--` ("extra accuracy": the
+stored value is count+1, so -1 = "less than one").  Returns (count, new bitCount). -/
+def countField (s : RS) : Int × Int := Id.run do
+  let thr := s.threshold.toNat
+  let max : Int := (2 * s.threshold - 1) - s.remaining
+  let low := s.bitStream &&& (thr - 1)
+  let mut count : Int := 0
+  let mut bitCount := s.bitCount
+  if (low : Int) < max then
+    count := low
+    bitCount := bitCount + (s.nbBits - 1 : Nat)
+  else
+    count := ((s.bitStream &&& (2 * thr - 1) : Nat) : Int)
+    if count ≥ s.threshold then count := count - max
+    bitCount := bitCount + s.nbBits
+  count := count - 1
+  return (count, bitCount)
+
+/-- FSE_readNCount_body, the second part of one turn of the main loop: read one count (`countField`), book it
+(`remaining -= abs(count)`, `normalizedCounter[charnum++] = count`, `previous0 = !count`), shrink `nbBits` / `threshold` while
+`remaining < threshold`, stop (`done`) when `remaining <= 1` or `charnum >= maxSV1`, else refill the bit container -/
+def readCount (b : Bytes) (iend maxSV1 : Nat) (s : RS) : RS := Id.run do
+  let (count, bitCount) := countField s
+  let remaining := if count ≥ 0 then s.remaining - count else s.remaining + count
+  let norm := if s.charnum < s.norm.size then s.norm.set! s.charnum count else s.norm
+  let charnum := s.charnum + 1
+  let mut nbBits := s.nbBits
+  let mut threshold := s.threshold
+  let mut done := false
+  if remaining < threshold then
+    if remaining ≤ 1 then done := true
+    else
+      nbBits := highbit remaining.toNat + 1
+      threshold := ((1 <<< (nbBits - 1) : Nat) : Int)
+  if !done && charnum ≥ maxSV1 then done := true
+  if done then
+    return { s with bitCount := bitCount, remaining := remaining, norm := norm, charnum := charnum, previous0 := count == 0,
+                    nbBits := nbBits, threshold := threshold, done := true }
+  else
+    let (ip', bc', bs') := refill b iend s.ip bitCount
+    return { s with ip := ip', bitCount := bc', bitStream := bs', remaining := remaining, norm := norm, charnum := charnum,
+                    previous0 := count == 0, nbBits := nbBits, threshold := threshold }
+
+/-- FSE_readNCount on a buffer of at least 8 bytes (FSE_readNCount_body; one turn of its main loop = `skipZeros` when the previous
+count was 0, then `readCount`) -/
 def readNCount8 (b : Bytes) (hbSize : Nat) (maxSV : Nat) : R NCount := Id.run do
   let iend := hbSize
   let maxSV1 := maxSV + 1
@@ -63,66 +139,9 @@ def readNCount8 (b : Bytes) (hbSize : Nat) (maxSV : Nat) : R NCount := Id.run do
   for _ in [0:maxSV1 + 2] do
     if s.done then break
     if s.previous0 then
-      let mut repeats := (ctz (mask32 (0xFFFFFFFF - s.bitStream) ||| 0x80000000)) >>> 1
-      let mut ip := s.ip
-      let mut bitCount := s.bitCount
-      let mut bitStream := s.bitStream
-      let mut charnum := s.charnum
-      -- `while (repeats >= 12)`: bounded by the symbol budget
-      for _ in [0:maxSV1 / 36 + 2] do
-        if repeats < 12 then break
-        charnum := charnum + 36
-        if ip + 7 ≤ iend then
-          ip := ip + 3
-        else
-          bitCount := bitCount - (8 * (((iend - 7 : Nat) : Int) - (ip : Int)))
-          bitCount := ((bitCount.toNat) &&& 31 : Nat)
-          ip := iend - 4
-        bitStream := (b.le32 ip) >>> bitCount.toNat
-        repeats := (ctz (mask32 (0xFFFFFFFF - bitStream) ||| 0x80000000)) >>> 1
-      charnum := charnum + 3 * repeats
-      bitStream := bitStream >>> (2 * repeats)
-      bitCount := bitCount + 2 * repeats
-      charnum := charnum + (bitStream &&& 3)
-      bitCount := bitCount + 2
-      if charnum ≥ maxSV1 then
-        s := { s with ip := ip, bitCount := bitCount, bitStream := bitStream, charnum := charnum, done := true }
-        break
-      let (ip', bc', bs') := refill b iend ip bitCount
-      s := { s with ip := ip', bitCount := bc', bitStream := bs', charnum := charnum }
-    -- read one count
-    let thr := s.threshold.toNat
-    let max : Int := (2 * s.threshold - 1) - s.remaining
-    let low := s.bitStream &&& (thr - 1)
-    let mut count : Int := 0
-    let mut bitCount := s.bitCount
-    if (low : Int) < max then
-      count := low
-      bitCount := bitCount + (s.nbBits - 1 : Nat)
-    else
-      count := ((s.bitStream &&& (2 * thr - 1) : Nat) : Int)
-      if count ≥ s.threshold then count := count - max
-      bitCount := bitCount + s.nbBits
-    count := count - 1
-    let remaining := if count ≥ 0 then s.remaining - count else s.remaining + count
-    let norm := if s.charnum < s.norm.size then s.norm.set! s.charnum count else s.norm
-    let charnum := s.charnum + 1
-    let mut nbBits := s.nbBits
-    let mut threshold := s.threshold
-    let mut done := false
-    if remaining < threshold then
-      if remaining ≤ 1 then done := true
-      else
-        nbBits := highbit remaining.toNat + 1
-        threshold := ((1 <<< (nbBits - 1) : Nat) : Int)
-    if !done && charnum ≥ maxSV1 then done := true
-    if done then
-      s := { s with bitCount := bitCount, remaining := remaining, norm := norm, charnum := charnum, previous0 := count == 0,
-                    nbBits := nbBits, threshold := threshold, done := true }
-    else
-      let (ip', bc', bs') := refill b iend s.ip bitCount
-      s := { s with ip := ip', bitCount := bc', bitStream := bs', remaining := remaining, norm := norm, charnum := charnum,
-                    previous0 := count == 0, nbBits := nbBits, threshold := threshold }
+      s := skipZeros b iend maxSV1 s
+      if s.done then break
+    s := readCount b iend maxSV1 s
   if s.remaining != 1 then return .error (.corruptionAt "FSE:126")
   if s.charnum > maxSV1 then return .error (.corruptionAt "FSE:127")      -- maxSymbolValue_tooSmall
   if s.bitCount > 32 then return .error (.corruptionAt "FSE:128")
